@@ -17,7 +17,8 @@ from .c07 import same
 ID = 'C14'
 LEVEL = 'exploration'
 RULE = (
-    'cases = histories of <=40 operations save / load / list-all / list-pid / delete / delete-pid / progress (advance a '
+    'cases = histories of <=40 operations save / load / list-all / list-pid / delete / delete-pid / poison / heal (make a process '
+    'unserialisable, so that its saves are refused, and serialisable again) / progress (advance a '
     'live process one step: new outputs, context mutation) / run-loaded (unbundle a loaded checkpoint, run it to '
     'completion, load again) over 3 live processes + 1 never-saved pid and tags {None, a, b}; pids are ints, UUIDs or '
     'separator-free strings (one kind per history); both persisters receive every operation; the oracle is a dict model '
@@ -26,7 +27,8 @@ RULE = (
 )
 ASSUMPTIONS = [
     'ids and tags are ints, UUIDs or separator-free strings of one kind per history (quantifier of C14)',
-    'the pickle persister works in a private temporary directory that is removed after the case',
+    'the pickle persister works in a private temporary directory (optionally a sub-directory whose name contains glob metacharacters) that is removed after the case',
+    'a save_checkpoint call that raises is not a save: the model keeps the previous snapshot of that key',
 ]
 BUDGET = {
     'quick': {'enum': ['pairs'], 'hyp': 1200, 'shards': 8},
@@ -43,6 +45,8 @@ PROG = {
     ]
 }
 TAGS = [None, 'a', 'b']
+# the pickle persister's directory is the caller's choice: names with glob/regex metacharacters are directories too
+DIRNAMES = ['store', 'run[1]', 'a*b?', '[ab]', 'x.pickle']
 TAG_SETS = {'str': [None, 'a', 'b'], 'int': [None, 0, 1], 'strempty': [None, '', 'b']}
 PID_SETS = {
     'int': [11, 22, 33, 44],
@@ -63,6 +67,12 @@ def enumerate_cases(tier, scope):
         for a in alphabet:
             for b in alphabet:
                 yield {'pid_kind': kind, 'ops': base_ops + [a, b, ['load', 0, None], ['load', 1, 'a'], ['list_all']]}
+    # a save that is refused (the process cannot be serialised right now) is not a save: the previous snapshot stays
+    for kind in PID_SETS:
+        for dirname in DIRNAMES:
+            yield {'pid_kind': kind, 'dirname': dirname, 'ops': [
+                ['save', 0, None], ['save', 1, 'a'], ['progress', 0], ['poison', 0], ['save', 0, None], ['save', 0, 'b'], ['load', 0, None], ['load', 0, 'b'],
+                ['list_all'], ['list_pid', 0], ['heal', 0], ['save', 0, 'b'], ['load', 0, 'b'], ['delete_pid', 0], ['list_all'], ['load', 1, 'a']]}
     # falsy tags (0, '') are tags too: they must not collide with the untagged checkpoint
     for tag_kind, falsy in (('int', 0), ('strempty', '')):
         for kind in PID_SETS:
@@ -81,10 +91,10 @@ def _cases(draw, tier):
     tag_kind = draw(st.sampled_from(['str', 'str', 'int', 'strempty']))
     tags = TAG_SETS[tag_kind]
     for _ in range(n):
-        kind = draw(st.sampled_from(['save', 'save', 'save', 'load', 'load', 'list_all', 'list_pid', 'delete', 'delete_pid', 'progress', 'progress', 'run_loaded']))
+        kind = draw(st.sampled_from(['save', 'save', 'save', 'save', 'load', 'load', 'load', 'list_all', 'list_pid', 'delete', 'delete_pid', 'progress', 'progress', 'run_loaded', 'poison', 'heal']))
         p = draw(st.integers(0, 3))
         tag = draw(st.sampled_from(tags))
-        if kind in ('save', 'progress'):
+        if kind in ('save', 'progress', 'poison', 'heal'):
             p = draw(st.integers(0, 2))
             ops.append([kind, p, tag] if kind == 'save' else [kind, p])
         elif kind in ('load', 'delete', 'run_loaded'):
@@ -93,7 +103,10 @@ def _cases(draw, tier):
             ops.append([kind, p])
         else:
             ops.append([kind])
-    return {'pid_kind': draw(st.sampled_from(['int', 'int', 'str', 'uuid'])), 'tag_kind': tag_kind, 'ops': ops}
+    case = {'pid_kind': draw(st.sampled_from(['int', 'int', 'str', 'uuid'])), 'tag_kind': tag_kind, 'ops': ops}
+    if draw(st.integers(0, 2)) == 0:
+        case['dirname'] = draw(st.sampled_from(DIRNAMES))
+    return case
 
 
 def strategy(tier):
@@ -115,6 +128,16 @@ class Sys:
                 self.procs.append(proc)
                 self.loop.create_task(proc.step_until_terminated())
         self.loop.drain()
+
+    def poison(self, idx, on):
+        """A context member that cannot be serialised makes every save of this process fail until it is removed."""
+        import threading
+
+        proc = self.procs[idx]
+        if on:
+            proc.ctx.unsavable = threading.Lock()
+        elif hasattr(proc.ctx, 'unsavable'):
+            delattr(proc.ctx, 'unsavable')
 
     def progress(self, idx):
         proc = self.procs[idx]
@@ -168,14 +191,24 @@ def execute(case):
         viol.append({'clause': clause, 'detail': detail})
 
     pids = PID_SETS[case['pid_kind']]
+    import os
+
     tmpdir = tempfile.mkdtemp(prefix='pv14-')
+    pickle_dir = tmpdir
+    if case.get('dirname'):
+        pickle_dir = os.path.join(tmpdir, case['dirname'])
+        os.mkdir(pickle_dir)
+        # a decoy next to it that a pattern interpretation of the name would match instead
+        for decoy in ('run1', 'ab', 'a', 'b', 'axb?'):
+            os.makedirs(os.path.join(tmpdir, decoy), exist_ok=True)
     system = Sys(pids)
+    poisoned = set()
     classes = set()
     model = {}
     touched_since_save = set()
     hist = []
     try:
-        persisters = {'memory': persistence.InMemoryPersister(), 'pickle': persistence.PicklePersister(tmpdir)}
+        persisters = {'memory': persistence.InMemoryPersister(), 'pickle': persistence.PicklePersister(pickle_dir)}
         for opno, op in enumerate(case['ops']):
             kind = op[0]
             where = f'op #{opno} {op}'
@@ -184,6 +217,11 @@ def execute(case):
                 for key in model:
                     if key[0] == pids[op[1]]:
                         touched_since_save.add(key)
+                hist.append([op, None])
+                continue
+            if kind in ('poison', 'heal'):
+                system.poison(op[1], kind == 'poison')
+                (poisoned.add if kind == 'poison' else poisoned.discard)(op[1])
                 hist.append([op, None])
                 continue
             results = {}
@@ -211,7 +249,12 @@ def execute(case):
                 except Exception as exc:  # noqa: BLE001
                     results[name] = ('raise', exc)
             # the model
-            if kind == 'save':
+            if kind == 'save' and op[1] in poisoned:
+                expected = ('raise', None)
+                classes.add('refused-save')
+                if (system.procs[op[1]].pid, op[2]) in model:
+                    classes.add('refused-save-over-existing-key')
+            elif kind == 'save':
                 proc = system.procs[op[1]]
                 key = (proc.pid, op[2])
                 if key in model:
@@ -275,8 +318,10 @@ def execute(case):
     finally:
         system.close()
         shutil.rmtree(tmpdir, ignore_errors=True)
-    nontrivial = bool(classes & {'overwrite', 'delete-absent', 'progress-between-save-and-load', 'run-loaded'})
+    nontrivial = bool(classes & {'overwrite', 'delete-absent', 'progress-between-save-and-load', 'run-loaded', 'refused-save-over-existing-key'})
     classes.add('pids:' + case['pid_kind'])
+    if case.get('dirname'):
+        classes.add('dir:' + case['dirname'])
     return {'violations': viol, 'nontrivial': nontrivial, 'classes': sorted(classes), 'history': {'pid_kind': case['pid_kind'], 'ops': hist[:45]}}
 
 
